@@ -11,9 +11,13 @@
      chan[q]  RunningQueryState.StateChan, bounded FIFO of capacity CAP, blocking send
 
    Deliberate deviations of the code from an idealised design are kept as they are:
-     * CancelQuery looks the query up in `running`, then (since the "fix:" commit) in the waiting
-       queue; a query that the puller has already dequeued but not yet inserted into `running`
-       is in neither and the cancel is lost (known finding, see CancelTakesEffect).
+     * CancelQuery looks the query up in `running`, then (since the first "fix:" commit) in the waiting
+       queue.  A query that the puller has already dequeued but not yet inserted into `running` was
+       in neither and the cancel was lost (SeesAdmitting = FALSE, violates CancelTakesEffect).  Since the
+       second "fix:" commit (SeesAdmitting = TRUE) the puller publishes the query it is admitting
+       (admittingQuery, under the waiting-queue lock, cleared after RunQuery returned: PullClear), the
+       waiting-queue look also checks it, and a cancel that misses both looks once more in `running`
+       (CancelRelook), because the query may have been admitted between its two looks.
      * the sync handler returns on TIMEOUT; the async handler keeps looping until the
        CANCELLED that the timer's CancelQuery sends.
      * DeleteQuery of a cancelled query does not stop its timer.                      *)
@@ -25,7 +29,8 @@ CONSTANTS Q,        \* query ids
           ASYNC,    \* websocket path (executor streams QUERY_UPDATE) or sync http path
           MAXUPD,   \* bound on QUERY_UPDATE messages per query (async)
           CANCELS,  \* how many client cancel calls may be issued per query
-          TIMERS    \* BOOLEAN: may the query timeout fire
+          TIMERS,   \* BOOLEAN: may the query timeout fire
+          SeesAdmitting \* BOOLEAN: does CancelQuery see the query the puller is admitting (see above)
 
 VARIABLES running,    \* allRunningQueries (set of qids)
           waiting,    \* waitingQueries (FIFO)
@@ -39,7 +44,7 @@ VARIABLES running,    \* allRunningQueries (set of qids)
           upd,        \* QUERY_UPDATEs sent
           tpc,        \* timer goroutine: "none" | "armed" | "fired" | "cancel" | "exit" | "stopped"
           ppc, pq,    \* puller pc and the query it is holding
-          cpc,        \* [Q -> [who -> "none"|"mark"|"unq"|"send"|"wlook"|"wsend"|"done"]]   CancelQuery invocations
+          cpc,        \* [Q -> [who -> "none"|"mark"|"unq"|"send"|"wlook"|"wmark"|"wsend"|"relook"|"done"]]   CancelQuery invocations
           ncancel     \* client cancel calls issued so far
 vars == <<running, waiting, cancelled, chan, arq, wq, hpc, outcome, epc, upd, tpc, ppc, pq, cpc, ncancel>>
 
@@ -79,7 +84,7 @@ PullDequeue ==    \* getNextWaitStateData(): wq
 PullRun ==        \* RunQuery(): arq.Lock, withLockRunQuery up to the first send
   /\ ppc = "lock" /\ arq = "free"
   /\ IF pq \in cancelled
-     THEN ppc' = "check" /\ UNCHANGED <<running, tpc, arq>>
+     THEN ppc' = (IF SeesAdmitting THEN "clear" ELSE "check") /\ UNCHANGED <<running, tpc, arq>>
      ELSE /\ running' = running \cup {pq}
           /\ tpc' = [tpc EXCEPT ![pq] = "armed"]
           /\ arq' = "puller" /\ ppc' = "ready"
@@ -88,8 +93,13 @@ PullSendReady ==
   /\ ppc = "ready" /\ CanSend(pq) /\ Send(pq, "READY") /\ ppc' = "runng"
   /\ UNCHANGED <<running, waiting, cancelled, arq, wq, hpc, outcome, epc, upd, tpc, pq, cpc, ncancel>>
 PullSendRunning ==
-  /\ ppc = "runng" /\ CanSend(pq) /\ Send(pq, "RUNNING") /\ ppc' = "check" /\ arq' = "free"
+  /\ ppc = "runng" /\ CanSend(pq) /\ Send(pq, "RUNNING") /\ ppc' = (IF SeesAdmitting THEN "clear" ELSE "check") /\ arq' = "free"
   /\ UNCHANGED <<running, waiting, cancelled, wq, hpc, outcome, epc, upd, tpc, pq, cpc, ncancel>>
+PullClear ==      \* clearAdmittingQuery(): wq
+  /\ ppc = "clear" /\ wq = "free" /\ ppc' = "check"
+  /\ UNCHANGED <<running, waiting, cancelled, chan, arq, wq, hpc, outcome, epc, upd, tpc, pq, cpc, ncancel>>
+\* the query the puller has dequeued and not yet given up (admittingQuery)
+Admitting(q) == SeesAdmitting /\ ppc \in {"lock", "ready", "runng", "clear"} /\ pq = q
 
 (* ---- DeleteQuery / withLockDeleteQuery (deferred by the handler on return) ---- *)
 DeleteEff(q) ==
@@ -138,8 +148,19 @@ CancelWaitLook(q, w) ==     \* cancelWaitingQuery: under wq remove q from the qu
      THEN /\ waiting' = SelectSeq(waiting, LAMBDA x : x # q)
           /\ cancelled' = cancelled \cup {q}
           /\ cpc' = [cpc EXCEPT ![q][w] = "wsend"]
-     ELSE /\ cpc' = [cpc EXCEPT ![q][w] = "done"] /\ UNCHANGED <<waiting, cancelled>>
+     ELSE IF Admitting(q)       \* the puller can see q: the mark is a separate step (rqsLock, after wq was released)
+     THEN /\ cpc' = [cpc EXCEPT ![q][w] = "wmark"] /\ UNCHANGED <<waiting, cancelled>>
+     ELSE /\ cpc' = [cpc EXCEPT ![q][w] = IF SeesAdmitting THEN "relook" ELSE "done"] /\ UNCHANGED <<waiting, cancelled>>
   /\ UNCHANGED <<running, chan, arq, wq, hpc, outcome, epc, upd, tpc, ppc, pq, ncancel>>
+CancelWaitMark(q, w) ==     \* isCancelled = TRUE for the query found with the puller
+  /\ cpc[q][w] = "wmark"
+  /\ cancelled' = cancelled \cup {q}
+  /\ cpc' = [cpc EXCEPT ![q][w] = "wsend"]
+  /\ UNCHANGED <<running, waiting, chan, arq, wq, hpc, outcome, epc, upd, tpc, ppc, pq, ncancel>>
+CancelRelook(q, w) ==       \* second RLock lookup in `running`
+  /\ cpc[q][w] = "relook" /\ arq = "free"
+  /\ cpc' = [cpc EXCEPT ![q][w] = IF q \in running THEN "mark" ELSE "done"]
+  /\ UNCHANGED <<running, waiting, cancelled, chan, arq, wq, hpc, outcome, epc, upd, tpc, ppc, pq, ncancel>>
 CancelWaitSend(q, w) ==     \* CANCELLED to the listener, no lock held
   /\ cpc[q][w] = "wsend" /\ CanSend(q)
   /\ Send(q, "CANCELLED")
@@ -186,18 +207,18 @@ TimeoutCancel(q) ==         \* CancelQuery(qid) from the timer: its lookup step
   /\ UNCHANGED <<running, waiting, cancelled, chan, arq, wq, hpc, outcome, epc, upd, ppc, pq, ncancel>>
 
 Next ==
-  \/ PullCheck \/ PullDequeue \/ PullRun \/ PullSendReady \/ PullSendRunning
+  \/ PullCheck \/ PullDequeue \/ PullRun \/ PullSendReady \/ PullSendRunning \/ PullClear
   \/ \E q \in Q : \/ Enqueue(q) \/ Recv(q) \/ HandlerDelete(q) \/ ExecUpdate(q) \/ ExecFinish(q)
                   \/ ClientCancel(q) \/ TimeoutFire(q) \/ TimeoutSend(q) \/ TimeoutCancel(q)
                   \/ \E w \in Who : \/ CancelMark(q, w) \/ CancelUnqueue(q, w) \/ CancelSend(q, w)
-                                     \/ CancelWaitLook(q, w) \/ CancelWaitSend(q, w)
+                                     \/ CancelWaitLook(q, w) \/ CancelWaitMark(q, w) \/ CancelWaitSend(q, w) \/ CancelRelook(q, w)
 
 Fairness == /\ WF_vars(PullCheck) /\ WF_vars(PullDequeue) /\ WF_vars(PullRun)
-            /\ WF_vars(PullSendReady) /\ WF_vars(PullSendRunning)
+            /\ WF_vars(PullSendReady) /\ WF_vars(PullSendRunning) /\ WF_vars(PullClear)
             /\ \A q \in Q : /\ WF_vars(Recv(q)) /\ WF_vars(HandlerDelete(q)) /\ WF_vars(ExecFinish(q))
                             /\ WF_vars(TimeoutSend(q)) /\ WF_vars(TimeoutCancel(q))
                             /\ \A w \in Who : /\ WF_vars(CancelMark(q, w)) /\ WF_vars(CancelUnqueue(q, w)) /\ WF_vars(CancelSend(q, w))
-                                            /\ WF_vars(CancelWaitLook(q, w)) /\ WF_vars(CancelWaitSend(q, w))
+                                            /\ WF_vars(CancelWaitLook(q, w)) /\ WF_vars(CancelWaitSend(q, w)) /\ WF_vars(CancelRelook(q, w)) /\ WF_vars(CancelWaitMark(q, w))
 Spec == Init /\ [][Next]_vars
 FairSpec == Spec /\ Fairness
 
@@ -237,7 +258,7 @@ NoStuckSender == \A q \in Q : ~StuckSender(q)
 NoStuckWithLock == \A q \in Q : ~(StuckSender(q) /\ (wq # "free" \/ arq # "free"))
 
 \* "cancellation at any moment stops it promptly": a finished client cancel of a live query has marked it.
-\* Violated only in the window between the puller's dequeue and its insert into `running`.
+\* Without SeesAdmitting violated in the window between the puller's dequeue and its insert into `running`.
 CancelTakesEffect == \A q \in Q : (cpc[q]["client"] = "done" /\ ncancel[q] > 0 /\ hpc[q] = "loop")
                                     => (q \in cancelled \/ outcome[q] # "none")
 
